@@ -5,7 +5,9 @@
 // run at Rat with a 2^-60 rational square root, entrywise up to tol (lean/Amgcl/Driver/RigidBodyModes.lean):
 //   rbm_modes      ndim transpose tol coo[] B0[] B[]        -> precondition | nmodes close
 //   rbm_degenerate ndim transpose coo[] B0[]                -> precondition | nonfinite | finite   (0/0 in a normalisation)
-//   rbm_ptent      ndim tol naggr id[] coo[] B[] P Bc[]     -> close shape repro ortho
+//   rbm_ptent      ndim tol eps A coo[] B[] P Bc[]          -> empty_level | count id[] close shape repro ortho
+//                  (A square with block structure ndim; aggregates = real pointwise_aggregates(A, eps, block_size = ndim,
+//                   min_aggregate = nmodes), compared exactly with the Lean model of C04; then as ptent_ns)
 //   rbm_nsparams   cols B[]                                 -> precondition | cols B[]   (nullspace_params(ptree): rows*cols values copied)
 // B0 = what the caller's vector holds on entry (B.resize keeps it).  execute re-runs the real code and requires the
 // values in the op line to be bitwise the implementation's output.
@@ -33,6 +35,12 @@ static double as_double(const Q &q) {
     double d = q.v.get_d();
     if (!(Q(d) == q)) throw bad_input("not a double");
     return d;
+}
+static float as_float(const Q &q) {
+    if (q.poison) throw bad_input("poison");
+    float f = (float)q.v.get_d();
+    if (!(Q(f) == q)) throw bad_input("not a float");
+    return f;
 }
 static std::vector<double> as_doubles(const std::vector<Q> &v) { std::vector<double> d; for (auto &q : v) d.push_back(as_double(q)); return d; }
 static std::vector<Q> as_rats(const std::vector<double> &v) { std::vector<Q> q; for (double d : v) q.push_back(Q(d)); return q; }
@@ -136,13 +144,18 @@ static Result execute(const Toks &t) {
         if (!fin && B0.empty()) { auto M = definition_modes(ndim, coo); bool dep = false; for (size_t k = 0; k < M.size(); ++k) { auto rest = M; rest.erase(rest.begin() + k); if (dist2_to_span(rest, M[k]) == 0) dep = true; } if (!dep) r.fail("non-finite output although the rigid body modes are linearly independent"); }
         r.nontrivial = !fin; r.tag(fin ? "finite" : "nonfinite");
     } else if (op == "rbm_ptent") {
-        long ndim = c.nat(); Q tol = c.rat(); long naggr = c.nat(); auto idv = c.natvec(); auto coo = c.vec(); auto B = c.vec(); auto P = c.mat(); auto Bc = c.vec(); c.expect_end();
-        if ((ndim != 2 && ndim != 3) || naggr < 0 || coo.size() % ndim) throw bad_input("param");
-        long cols = ndim == 2 ? 3 : 6, n = (long)idv.size();
+        long ndim = c.nat(); Q tol = c.rat(); float eps = as_float(c.rat()); auto A = c.mat(); auto coo = c.vec(); auto B = c.vec(); auto P = c.mat(); auto Bc = c.vec(); c.expect_end();
+        if (ndim != 2 && ndim != 3) throw bad_input("param");
+        long cols = ndim == 2 ? 3 : 6, n = (long)coo.size();
+        { std::string why; auto Ac = A.crs(); if (!crs_wf(*Ac, why) || A.n != A.m || A.n != n || n % ndim) throw bad_input("shape"); }
+        std::vector<ptrdiff_t> id; long naggr = 0;
+        try {
+            auto Ac = A.crs(); ac::pointwise_aggregates::params ap; ap.eps_strong = eps; ap.block_size = (unsigned)ndim;
+            ac::pointwise_aggregates ag(*Ac, ap, (unsigned)cols); id = ag.id; naggr = (long)ag.count;
+        } catch (const amgcl::error::empty_level &) { r.out = "empty_level"; r.tag("empty_level"); return r; }
+        catch (const std::runtime_error &) { throw bad_input("pointwise_aggregates precondition"); }
         std::string why; auto Pc = P.crs();
-        if (idv.size() != coo.size() || B.size() != idv.size() * (size_t)cols || !crs_wf(*Pc, why) || P.m != (naggr / ndim) * cols || (long)Bc.size() != (naggr / ndim) * cols * cols) throw bad_input("shape");
-        for (auto v : idv) if (v >= naggr) throw bad_input("id >= naggr");
-        std::vector<ptrdiff_t> id(idv.begin(), idv.end());
+        if (B.size() != (size_t)n * (size_t)cols || !crs_wf(*Pc, why) || P.m != (naggr / ndim) * cols || (long)Bc.size() != (naggr / ndim) * cols * cols) throw bad_input("shape");
         RbmOut o = run_rbm(ndim, false, as_doubles(coo), {}); (void)as_doubles(B);
         if (o.precondition || !same_bits(o.B, B)) r.fail("B in the op line is not the output of rigid_body_modes");
         rbm_oracles(r, ndim, false, coo, false, o);
@@ -161,7 +174,7 @@ static Result execute(const Toks &t) {
             if (!within(tol, s - B[i * cols + k])) repro = false;
         }
         { Dense D = dense(P); for (long a = 0; a < P.m; ++a) for (long b2 = 0; b2 < P.m; ++b2) { Q g(0); for (long i = 0; i < P.n; ++i) g += D[i][a] * D[i][b2]; if (!within(tol, g - Q(a == b2 ? 1 : 0))) ortho = false; } }
-        r.out = (Line() << true << shape << repro << ortho).get();
+        { Line l; l << naggr; l << (size_t)id.size(); for (auto v : id) l << (long)v; l << true << shape << repro << ortho; r.out = l.get(); }
         if (!shape) r.fail("rigid body modes: P_tent has the wrong shape"); if (!repro) r.fail("rigid body modes: P_tent * B_coarse != B on aggregated rows (beyond tol)"); if (!ortho) r.fail("rigid body modes: columns of P_tent not orthonormal (beyond tol)");
         r.nontrivial = P.col.size() > 0; r.tag("rbm_ptent_" + std::to_string(ndim) + "d");
     } else if (op == "rbm_nsparams") {
@@ -196,7 +209,12 @@ static void emit_modes(Rng &rng, long ndim, bool tr, const std::vector<Q> &coo, 
 }
 static void generate(Rng &rng, const Opts &o, std::vector<std::string> &lines) {
     const bool th = o.thorough();
-    long N = o.cases > 0 ? o.cases : (th ? 1200 : 160);
+    long N = o.cases > 0 ? o.cases : (th ? 1000 : 160);
+    // exhaustive: every placement of one or two nodes (2D) / one node (3D) on the grid {-1,0,1}^ndim
+    if (o.cases <= 0) for (int cfg = 0; cfg < 3; ++cfg) {
+        long ndim = cfg == 2 ? 3 : 2, len = cfg == 0 ? 2 : (cfg == 1 ? 4 : 3), tot = 1; for (long i = 0; i < len; ++i) tot *= 3;
+        for (long m = 0; m < tot; ++m) { std::vector<Q> coo; long x = m; for (long i = 0; i < len; ++i) { coo.push_back(Q(x % 3 - 1)); x /= 3; } emit_modes(rng, ndim, (m % 2) == 1, coo, {}, lines); }
+    }
     for (long k = 0; k < N; ++k) {
         long ndim = rng.coin() ? 2 : 3; bool tr = rng.coin(1, 3);
         long nn = rng.coin(1, 8) ? rng.range(0, 2) : rng.range(1, th ? 14 : 9);
@@ -213,7 +231,7 @@ static void generate(Rng &rng, const Opts &o, std::vector<std::string> &lines) {
         emit_modes(rng, ndim, tr, coo, B0, lines);
     }
     // composition with the real aggregates and the null-space branch of tentative_prolongation
-    long NP = o.cases > 0 ? o.cases / 4 + 2 : (th ? 300 : 40);
+    long NP = o.cases > 0 ? o.cases / 4 + 2 : (th ? 160 : 40);
     for (long k = 0; k < NP; ++k) {
         long ndim = rng.coin() ? 2 : 3, cols = ndim == 2 ? 3 : 6;
         long nn = ndim == 2 ? rng.range(4, th ? 30 : 20) : rng.range(7, th ? 30 : 22);
@@ -229,7 +247,7 @@ static void generate(Rng &rng, const Opts &o, std::vector<std::string> &lines) {
             { Line l; l << "rbm_nsparams" << cols << as_rats(rb.B); lines.push_back(l.get()); }
             NsOut out = ns_run(ndim, cols, (long)ag.count, ag.id, rb.B);
             if (!out.took) continue;
-            Line l; l << "rbm_ptent" << ndim << Q::frac(1, 1L << 26) << (long)ag.count; l << (size_t)ag.id.size(); for (auto v : ag.id) l << (long)v;
+            Line l; l << "rbm_ptent" << ndim << Q::frac(1, 1L << 26) << Q(0.08f) << A;
             l << coo << as_rats(rb.B) << out.P << out.Bc; lines.push_back(l.get());
         } catch (const amgcl::error::empty_level &) {} catch (const std::runtime_error &) {}
     }
@@ -242,7 +260,7 @@ static void generate(Rng &rng, const Opts &o, std::vector<std::string> &lines) {
     lines.push_back("rbm_modes 2 2 1/1024 2 0 0 0 0");                // flag not 0/1
     lines.push_back("rbm_modes 2 0 1/1024 4 0 0 1");                  // truncated vector
     lines.push_back("rbm_degenerate 3 0 3 0 0 0 0 7");                // trailing token
-    lines.push_back("rbm_ptent 2 1/1024 2 2 0 0 2 0 0 0 0 0 0 0");    // B has the wrong size / truncated
+    lines.push_back("rbm_ptent 2 1/1024 1/3 2 2 1 0 1 1 1 1 2 0 0 0 0 0 0");   // eps is not a float
 }
 
 VH_MAIN(generate, execute)
